@@ -62,7 +62,8 @@ def main():
         det = m.get('detection') or {}
         files = sorted(set(re.findall(r'^\+\+\+ b/(\S+)', open(os.path.join(V, 'seeded', x, 'patch.diff')).read(), re.M)))
         what = (m.get('summary') or m.get('what') or '').replace('|', '/').replace('\n', ' ')[:160]
-        c = ('**missed**' if det.get('caught') is False else
+        c = (('outside the property: ' + m['scope_note']) if det.get('caught') is False and m.get('scope_note') else
+             '**missed**' if det.get('caught') is False else
              ('n/a: ' + det.get('note', '') if det.get('caught') is None else ', '.join(det.get('clauses', [])[:3])))
         out.append(f"| {x} | {', '.join(f.replace('s3transfer/', '') for f in files)} | {what} | {c} |")
     open(os.path.join(V, 'seeded', 'MATRIX.md'), 'w').write('\n'.join(out) + '\n')
